@@ -49,6 +49,8 @@ func main() {
 		os.Exit(cmdErrFuncs(os.Args[2:]))
 	case "replay":
 		os.Exit(cmdReplay(os.Args[2:]))
+	case "replayable":
+		os.Exit(cmdReplayable(os.Args[2:]))
 	default:
 		fmt.Fprintln(os.Stderr, "unknown command", os.Args[1])
 		os.Exit(2)
@@ -136,7 +138,14 @@ func (e *Engine) targetsFor(prop string) ([]target, []string) {
 	}
 	// implcheck declarations
 	for _, ic := range e.cs.ImplChecks {
-		if ic.Prop != prop && prop != "all" {
+		// the property may be a comma-separated list: the implementation is checked under each of them
+		icHit := prop == "all"
+		for _, q := range strings.Split(ic.Prop, ",") {
+			if q == prop {
+				icHit = true
+			}
+		}
+		if !icHit {
 			continue
 		}
 		parts := strings.SplitN(ic.Iface, ".", 2)
@@ -285,12 +294,27 @@ type checkResult struct {
 func (e *Engine) runTargets(ts []target, mode string) *checkResult {
 	res := &checkResult{abstracted: map[string][]string{}, uncontracted: map[string]bool{}, trustedUsed: map[string]string{}}
 	var obls []*Obligation
+	// a function that is verified more than once (under its own contract, as the implementation of an interface-level
+	// contract, as a promoted method of several outer types) gets a tag per run, so that no two obligations share a name
+	perFn := map[*ssa.Function]int{}
+	for _, t := range ts {
+		perFn[t.fn]++
+	}
 	for _, t := range ts {
 		con := t.con
 		fx := e.newFnExec(t.fn, con)
 		fx.iface = t.iface
 		fx.implOf = t.implOf
 		fx.mode = mode
+		if perFn[t.fn] > 1 && t.iface != nil {
+			fx.nameTag = "~" + shortName(t.iface.Key)
+			if t.iface.IfaceT != nil {
+				fx.nameTag = "~" + typeKey(t.iface.IfaceT)
+			}
+			if t.implOf != nil {
+				fx.nameTag += ":" + typeKey(t.implOf)
+			}
+		}
 		if con == nil {
 			fx.con = &Contract{Flags: map[string]string{}, Absorbs: map[string]string{}, Inv: map[int][]Clause{}, Dec: map[int]Clause{}}
 			if t.iface != nil {
@@ -798,17 +822,34 @@ func report(e *Engine, prop, tier string, seed int, t0 time.Time, ts []target, r
 		suffix := ""
 		if v.Status == "failed" {
 			rec["model"] = v.Model
-			rep := tryReplay(e, prop, v)
-			rec["replay"] = rep
-			if rep == nil || rep["reproduced"] != true {
-				suffix = " no-failing-input-found"
-			}
-		} else {
+		}
+		// an undecided obligation has no model, but a replay driver may still find an input on which the real code
+		// breaks the clause (the real run and the clause evaluated on concrete values decide, not the candidate's origin)
+		rep := tryReplay(e, prop, v)
+		rec["replay"] = rep
+		if rep == nil || rep["reproduced"] != true {
 			suffix = " no-failing-input-found"
 		}
 		b, _ := json.MarshalIndent(rec, "", " ")
 		os.WriteFile(rp, b, 0o644)
 		violations = append(violations, fmt.Sprintf("VIOLATION property=%s replay=%s obligation=%s%s", prop, rp, v.Ob.Name, suffix))
+	}
+	// two obligations under one name would be indistinguishable in baselines, known findings and reports
+	{
+		cnt := map[string]int{}
+		for _, n := range names {
+			cnt[n]++
+		}
+		var dups []string
+		for n, c := range cnt {
+			if c > 1 {
+				dups = append(dups, n)
+			}
+		}
+		sort.Strings(dups)
+		for _, n := range dups {
+			problems = append(problems, "engine: obligation name generated more than once: "+n)
+		}
 	}
 	for fn := range hasRet {
 		if !liveRet[fn] {
